@@ -84,7 +84,7 @@ func VerifSetSession(c *Client, sm SMState) {
 func VerifRecv(c *Client, keepaliveQuit chan<- struct{}) { c.recv(keepaliveQuit) }
 
 func VerifComponentSetTransport(c *Component, t Transport) { c.transport = t }
-func VerifComponentRecv(c *Component)                      { c.recv() }
+func VerifComponentRecv(c *Component)                      { c.recv(c.transport) }
 func VerifComponentHandshake(c *Component, streamID string) string {
 	return c.handshake(streamID)
 }
